@@ -21,6 +21,16 @@ CHECKS["C04"] = dict(
    text="For each of the 7 tag datatypes and 22 positional datatypes every string of length <= 4 (quick) / <= 5 (thorough) over a ~10-symbol critical alphabet (plus boundary values) is hosted in an otherwise valid line; line-structure tables (field counts, tag names, duplicate tags, predefined tag x datatype, LN x sequence, path segments x overlaps, begin/end pairs), every single-point mutation of a corpus line, and document-rule tables (references defined, `$` vs segment length, rGFA) are evaluated at vlevel 1,2,3. gfapy accepts (construction + validate() + clean written form) iff gfamc/ref/grammar.py accepts; the third outcome (accepted, then flagged invalid) is a violation.",
    note="Trusted base: the reference recogniser gfamc/ref/grammar.py (anchored on the repository's test data in C01's self-test); no tab/newline inside field values; abstains where the property leaves `$` usage open.",
    ref="3 C04", engine="I")
+CHECKS["C01"] = dict(
+   technique="bounded-exhaustive generation of valid documents x configurations, parse->write on the real code, multiset comparison by an independent tokenizer",
+   text="Documents: one template per record type x every tag spelling of an 18-entry menu (all 7 datatypes, non-canonical but valid spellings) and every pair; every reference-closed subset of <= 3 (quick) / <= 4 (thorough) of 15 GFA1 / 21 GFA2 line templates; special documents (link in both complement forms, repeated header tags, multi-line groups, comments, empty). Each x 5 entry points (str, str+newline, list, file LF, file CRLF) x vlevel 0..3 x version explicit/auto. Oracle: equal record multisets after the documented normalisations only, no INVALID marker / placeholder written, written form re-parses to the identical text, to_file agrees with str.",
+   note="Trusted base: tokenizer/grammar in gfamc/ref/grammar.py, anchored at run time on all 2 451 lines of tests/testdata; documents limited to the stated templates.",
+   ref="3 C01", engine="I")
+CHECKS["C20"] = dict(
+   technique="bounded-exhaustive enumeration of tag values x datatypes x levels through the public setter, write/re-parse compared with an independent grammar",
+   text="Every value of a menu (39 boundary integers around 2^7..2^32, 11 floats incl. inf/nan/-0.0, all strings of length <= 2 over 8 critical characters, encoded-text strings, JSON values of <= 3 nodes, all integer arrays of length <= 2 over the boundary integers, float/mixed/empty arrays, NumericArray and ByteArray instances) x declared datatype (none, A,i,f,Z,J,H,B) x 2 tag names x 3 host records x vlevel 0..3. Oracle: documented default datatype; a representable value validates, is written in the datatype's grammar with the smallest B subtype and reads back equal with the same datatype; an unrepresentable one is refused by validate() and never written unmarked at level >= 2.",
+   note="Python bool and user classes are outside the claim; pairings the documentation leaves open (int under f, list under H, arrays under J) are not judged.",
+   ref="3 C20", engine="I")
 NOT_BUILT = {}
 
 def main():
